@@ -41,6 +41,7 @@ func ruleC03(c *Ctx) {
 	}
 	checkMapOrder(c, "MAPORDER", fam)
 	checkNoShared(c, "NOSHARED", "Build and helpers", fam, map[string]string{})
+	writerLoopHazards(c, "FIELDMAP-W", fam)
 	// the returned bytes come from a buffer this call allocated
 	{
 		tb := newTB(build)
@@ -329,4 +330,112 @@ func ruleC03(c *Ctx) {
 	// ---------------- WRAPPERS
 	checkReturnIs(c, "WRAPPERS", "Read", w.fn("io/genbank", "Read"), 0, "call[poly/io/genbank.Parse](extract[0](call[os.ReadFile](param[0])))", "Read(path) = Parse(ReadFile(path))")
 	checkFileWrite(c, "WRAPPERS", "Write", w.fn("io/genbank", "Write"), 1, "call[poly/io/genbank.Build](param[0])")
+}
+
+// writerLoopHazards: two ways a text writer loses data that are visible in its shape.
+//  (1) a loop that writes one line per element of a list LEAVES the loop when an element's value is
+//      empty (break instead of continue): every later element is dropped.
+//  (2) a value that is written as continuation lines is cut at a fixed column (s[:k], s[k:]) rather
+//      than at blanks: the reader re-joins continuation lines with a blank, so a long unbroken token
+//      comes back with a blank inside.
+// One violation per site found; nothing is reported otherwise.
+func writerLoopHazards(c *Ctx, rule string, fam []*ssa.Function) {
+	for _, f := range fam {
+		tb := newDeepTB(f)
+		for _, b := range f.Blocks {
+			ifi, ok := b.Instrs[len(b.Instrs)-1].(*ssa.If)
+			if !ok {
+				continue
+			}
+			hdr := enclosingLoopHeader(b)
+			if hdr == nil || b == hdr {
+				continue
+			}
+			inL := func(x *ssa.BasicBlock) bool { return x == hdr || (hdr.Dominates(x) && reaches(x, hdr)) }
+			t := tb.T(ifi.Cond)
+			// x == "" / len(x) == 0 on an element of the list being ranged over
+			var elem *Term
+			emptyOnTrue := true
+			switch {
+			case t.isBin("==") || t.isBin("!="):
+				emptyOnTrue = t.isBin("==")
+				for k := 0; k < 2; k++ {
+					o := t.Args[1-k]
+					if t.Args[k].isConst(`""`) {
+						elem = o
+					}
+					if t.Args[k].isConst("0") && o.isCall("builtin:len") {
+						elem = o.Args[0]
+					}
+				}
+			}
+			if elem == nil || !elem.contains(func(x *Term) bool { return x.Op == "each" || x.Op == "zip" }) {
+				continue
+			}
+			emptySucc := b.Succs[0]
+			if !emptyOnTrue {
+				emptySucc = b.Succs[1]
+			}
+			if inL(emptySucc) {
+				continue
+			}
+			// the loop writes lines
+			writes := false
+			for _, lb := range f.Blocks {
+				if !inL(lb) {
+					continue
+				}
+				for _, ins := range lb.Instrs {
+					if ci, ok := ins.(ssa.CallInstruction); ok && (strings.Contains(calleeName(ci), ").Write") || calleeName(ci) == "builtin:append") {
+						writes = true
+					}
+				}
+			}
+			if !writes {
+				continue
+			}
+			if _, isRet := emptySucc.Instrs[len(emptySucc.Instrs)-1].(*ssa.Return); isRet && len(emptySucc.Instrs) == 1 {
+				continue
+			}
+			c.bad(rule, "writer loop leaves at the first empty value in "+strings.TrimPrefix(fname(f), "poly/"), ifi.Cond.Pos(), "the loop that writes one item per element stops (break) when "+short(elem.String())+" is empty instead of skipping it: every later item - e.g. JOURNAL and PUBMED of a reference without TITLE - is silently dropped from the output")
+		}
+		// fixed-column cuts of a value into continuation lines
+		eachInstr(f, func(i ssa.Instruction) {
+			sl, ok := i.(*ssa.Slice)
+			if !ok || !isStringType(sl.X.Type()) || !inLoop(sl.Block()) {
+				return
+			}
+			if sl.High == nil {
+				return
+			}
+			hi, isC := tb.T(sl.High).constInt()
+			if !isC || hi < 20 || (sl.Low != nil && !tb.T(sl.Low).isConst("0")) {
+				return
+			}
+			// the piece is kept as a line of its own (appended to a list / written)
+			kept := false
+			if sl.Referrers() != nil {
+				for _, r := range *sl.Referrers() {
+					switch x := r.(type) {
+					case *ssa.Store:
+						kept = kept || x.Val == ssa.Value(sl)
+					case ssa.CallInstruction:
+						kept = kept || strings.Contains(calleeName(x), ").Write")
+					}
+				}
+			}
+			// and the remainder continues from the same column
+			rest := false
+			eachInstr(f, func(j ssa.Instruction) {
+				if s2, ok := j.(*ssa.Slice); ok && s2.X == sl.X && s2.High == nil && s2.Low != nil {
+					if k, ok := tb.T(s2.Low).constInt(); ok && k == hi {
+						rest = true
+					}
+				}
+			})
+			if kept && rest {
+				c.bad(rule, "value cut at a fixed column in "+strings.TrimPrefix(fname(f), "poly/"), sl.Pos(), fmt.Sprintf("a line longer than %d characters is cut at column %d and continued on the next line: the reader joins continuation lines with a blank, so an unbroken token of that length (URL, cross-reference list) comes back with a blank inside it", hi, hi))
+			}
+		})
+	}
 }
